@@ -10,7 +10,7 @@ from vlib import meshgen as mg
 from props import c11_gen
 
 PID = "C11"
-LEAN_MODULES = ["BemppVerif.Props.C11"]
+LEAN_MODULES = ["BemppVerif.Props.C11", "BemppVerif.Props.C11Geom"]
 N = "BemppVerif.C11."
 THEOREMS = [N + t for t in [
     # (i) edges
@@ -20,24 +20,21 @@ THEOREMS = [N + t for t in [
     "shared_count_is_common_vertices", "edge_adjacency_sound", "edge_adjacency_complete", "edge_adjacency_no_duplicates",
     "vertex_adjacency_sound", "vertex_adjacency_complete", "vertex_adjacency_no_duplicates",
     # (iii) neighbours / boundary
-    "edge_neighbors_correct", "edge_neighbors_length", "vertex_neighbors_correct", "element_neighbors_correct",
+    "edge_neighbors_correct", "edge_neighbors_length", "edge_neighbors_nodup", "vertex_neighbors_correct", "element_neighbors_correct",
     "element_neighbors_consistent", "edge_boundary_flag_exact", "vertex_boundary_flag_exact",
     # (iv) refinement, union, segments
     "refine_child_normal", "refine_children_vertices", "refine_children_nested", "refine_domain_indices",
     "bary_child_normal", "bary_children_vertices", "bary_domain_indices",
-    "union_swapped_flips_normal", "union_elements", "normalize_array_order_preserving_partial",
-    "segments_preserve",
+    "union_swapped_flips_normal", "union_elements", "segments_preserve",
     # (v) geometry
     "lagrange_identity", "integration_element_sq_nonneg", "normal_unit_right_handed", "normal_orthogonal",
     "jac_inv_trans_left_inverse", "jac_inv_trans_in_tangent_plane", "centroid_def", "diameter_is_circumdiameter",
     "volume_translation_invariant",
 ]]
-PARTIAL = {
-    N + "normalize_array_order_preserving_partial":
-        "only the per-array statement (normalize_array is an order-preserving relabelling onto 0..N-1, so equal indices "
-        "stay equal and different ones stay different) is a theorem; that the blocks of different grids of a union "
-        "get disjoint index ranges is checked by the correspondence and the oracle only",
-}
+PARTIAL = {}
+NOT_PROVED = ("union: the domain-index bookkeeping (normalize_array is an order-preserving relabelling onto 0..N-1, blocks of "
+              "different grids get disjoint ranges) is modelled (Topo.normalizeArray / unionDomains, compared exactly with "
+              "the implementation) and checked by the oracle, but not a theorem")
 TRUSTED = [
     "Tie A translator props/c11_gen.py (ast extraction of _EDGE_LOCAL, the refine child triples, the 18 barycentric "
     "assignments, the union swap permutation)",
